@@ -10,19 +10,20 @@ import itertools
 import graphs as gr
 
 PROP = "C01"
-RULE = ("5 targeted shapes under 21 (quick) / 61 (thorough) insertion orders; quick: every acyclic ADMG(n) and ancestral ANC(n) graph n<=3, each also with one (empty) layer absent, all "
+RULE = ("REPEAT protocol (field rep): the object first represents a neighbour graph (one edge reversed / moved, same counts), answers the same queries, is edited in place into the target graph and only then judged - on every n<=3 graph, every DAG(4), every 8th ADMG(4), a quarter of the random graphs; custom layer names (dir/bidir/undir, names passed explicitly) on every n<=3 graph and a tenth of the random ones; the swapped call (Y,X) on every query except in the ADMG(4)/DAG(5) singleton streams of the quick tier (every second query). "
+        "6 targeted shapes under 21 (quick) / 61 (thorough) insertion orders; quick: every acyclic ADMG(n) and ancestral ANC(n) graph n<=3, each also with one (empty) layer absent, all "
         "pairwise-disjoint (X,Y,Z) with |X|,|Y|<=2, default and one random insertion order; every DAG(4) with all such queries "
         "under two orders; every ADMG(4) and ANC(4) with all singleton X,Y and all Z under one random insertion order; "
-        "every third DAG(5) (all in thorough) with singleton X,Y and all Z; 1500 random graphs 5<=n<=8 with 40 random queries; cyclic directed layers n<=3 (must raise). "
+        "every sixth DAG(5) (all in thorough) with singleton X,Y and all Z; 1500 random graphs 5<=n<=8 with 40 random queries; cyclic directed layers n<=3 (must raise). "
         "thorough: all of ADMG(n), ANC(n), n<=4, with the layer-absent variants, all queries |X|,|Y|<=2, two orders; 6000 random "
         "graphs n<=14. distinct by (canonical graph, layers); non-trivial = some query is connected and some separated")
 EXHAUSTIVE = {"quick": "ADMG(n), ANC(n) n<=3: all disjoint X,Y,Z with |X|,|Y|<=2; DAG(4): same queries; "
-                       "ADMG(4), ANC(4): all singleton X,Y, all Z (DAG(5): one third, not exhaustive)",
+                       "ADMG(4), ANC(4): all singleton X,Y, all Z (DAG(5): one sixth, not exhaustive)",
               "thorough": "ADMG(n), ANC(n) n<=4, all disjoint X,Y,Z with |X|,|Y|<=2; DAG(5): all singleton X,Y, all Z"}
 TRUSTED = ["networkx ancestors / in_edges / out_edges / neighbors / is_directed_acyclic_graph taken at face value",
            "the deque discipline and pop-time visited marking of m_separated are abstracted into a reachability closure in "
            "the model; that abstraction is what the correspondence (incl. random insertion orders) watches"]
-ASSUMPTIONS = ["default edge-type names", "int labels (label families: C15)", "X, Y, Z are sets of nodes of G",
+ASSUMPTIONS = ["default edge-type names, plus one family of custom names passed explicitly (beyond the quantifier)", "int labels (label families: C15)", "X, Y, Z are sets of nodes of G",
                "a missing layer is modelled as an empty layer"]
 TECHNIQUE = ("Coq proof (model = m-separation by m-connecting paths, unbounded: closure invariant + open-walk-to-path surgery) "
              "+ extracted-model correspondence")
@@ -95,10 +96,21 @@ def _orders(rng, two):
     return [None, rng.randrange(1 << 30)] if two else [rng.randrange(1 << 30)]
 
 
-def _case(kind, g, layers, qs, oracle, order):
+CUSTOM_NAMES = {"directed": "dir", "bidirected": "bidir", "undirected": "undir"}
+
+
+def _case(kind, g, layers, qs, oracle, order, rep=None, custom=False, symh=None):
+    """rep: seed of the REPEAT protocol (warm-up queries on a neighbour graph, in-place morph, then the judged queries);
+    custom: build the layers under non-default names and pass the names; symh: run the swapped call only on every second query"""
     c = {"kind": kind, "g": g, "layers": layers, "qs": qs, "oracle": oracle}
     if order is not None:
         c["_order"] = order
+    if rep is not None:
+        c["rep"] = rep
+    if custom:
+        c["custom"] = True
+    if symh is not None:
+        c["symh"] = symh
     return c
 
 
@@ -110,16 +122,20 @@ TARGETED = [
     gr.G(range(5), D=[(1, 0), (2, 3), (3, 1), (4, 1)], B=[(0, 2)]),
     gr.G(range(5), D=[(1, 2), (3, 2), (2, 4)], B=[(0, 1), (1, 3)], U=[]),
     gr.G(range(5), D=[(1, 2), (3, 2), (2, 4)], U=[(0, 1)]),
+    gr.G(range(4), D=[(0, 2), (1, 2), (2, 3)]),
 ]
 
 
 def gen_cases(tier, rng):
     thorough = tier != "quick"
+    seed = lambda: rng.randrange(1 << 30)  # noqa: E731
     for g in TARGETED:
         qs = cached_queries(len(g["V"]), 2)
-        for o in [None] + [rng.randrange(1 << 30) for _ in range(60 if thorough else 20)]:
-            yield _case("targeted", g, ALL_LAYERS, qs, True, o)
-    # --- exhaustive n <= 3 (quick) / n <= 4 (thorough): all queries, layer-absent variants, two insertion orders
+        yield _case("targeted", g, ALL_LAYERS, qs, True, None)
+        for j in range(60 if thorough else 20):
+            yield _case("targeted", g, ALL_LAYERS, qs, True, seed(), rep=seed() if j % 2 else None, custom=(j % 5 == 0))
+    # --- exhaustive n <= 3 (quick) / n <= 4 (thorough): all queries, layer-absent variants; canonical insertion order, and a
+    #     random order under the REPEAT protocol; with all layers also once under custom layer names
     for n in range(2, (4 if thorough else 3) + 1):
         qs = cached_queries(n, 2)
         for src, kind in ((gr.enum_admg(n), "admg"), (gr.enum_anc(n), "anc")):
@@ -127,33 +143,38 @@ def gen_cases(tier, rng):
                 if kind == "anc" and not g["U"]:
                     continue
                 for layers in layer_variants(g):
-                    for o in _orders(rng, True):
-                        yield _case("%s%d" % (kind, n), g, layers, qs, True, o)
+                    yield _case("%s%d" % (kind, n), g, layers, qs, True, None)
+                    yield _case("%s%d" % (kind, n), g, layers, qs, True, seed(), rep=seed())
+                if n <= 3 or rng.random() < 0.1:
+                    yield _case("%s%dc" % (kind, n), g, ALL_LAYERS, qs, True, seed(), custom=True,
+                                rep=seed() if rng.random() < 0.5 else None)
     if not thorough:
-        # --- quick, n = 4: every DAG with all queries under two orders; every ADMG / ANC graph with singleton X, Y, all Z
+        # --- quick, n = 4: every DAG with all queries under two orders (the second one REPEATed); every ADMG / ANC graph with
+        #     singleton X, Y, all Z (swapped call on every second query; every 8th graph REPEATed)
         qs2, qs1 = cached_queries(4, 2), cached_queries(4, 1)
         for g in gr.enum_dag(4):
-            for o in _orders(rng, True):
-                yield _case("dag4", g, ALL_LAYERS, qs2, True, o)
+            yield _case("dag4", g, ALL_LAYERS, qs2, True, None)
+            yield _case("dag4", g, ALL_LAYERS, qs2, True, seed(), rep=seed())
         for src, kind in ((gr.enum_admg(4), "admg4s"), (gr.enum_anc(4), "anc4s")):
-            for g in src:
+            for i, g in enumerate(src):
                 if kind == "anc4s" and not g["U"]:
                     continue
-                yield _case(kind, g, ALL_LAYERS, qs1, True, rng.randrange(1 << 30))
-    # --- DAG(5): all singleton X, Y and all Z, one random order (quick: every third graph, offset from the seed)
+                yield _case(kind, g, ALL_LAYERS, qs1, True, seed(), symh=i % 2, rep=seed() if i % 8 == 3 else None)
+    # --- DAG(5): all singleton X, Y and all Z, one random order (quick: every sixth graph, offset from the seed)
     qs5 = cached_queries(5, 1)
-    off = rng.randrange(3)
+    off = rng.randrange(6)
     for i, g in enumerate(gr.enum_dag(5)):
-        if thorough or i % 3 == off:
-            yield _case("dag5s", g, ALL_LAYERS, qs5, True, rng.randrange(1 << 30))
+        if thorough or i % 6 == off:
+            yield _case("dag5s", g, ALL_LAYERS, qs5, True, seed(), symh=None if thorough else i % 2)
     # --- random larger graphs (5 nodes are needed e.g. for a collider in Z popped from the backward deque before its
-    #     second parent is reached through the forward deque)
+    #     second parent is reached through the forward deque); a quarter REPEATed, a tenth under custom layer names
     for i in range(6000 if thorough else 1500):
         n = rng.randint(5, 14) if thorough and i % 4 == 0 else rng.randint(5, 8)
         kinds = gr.ADMG_KINDS if rng.random() < 0.6 else gr.ANC_KINDS
         g = gr.random_kinds_graph(rng, n, kinds, p_edge=rng.choice([0.2, 0.3, 0.45]),
                                   pred=gr.ancestral_und_ok if kinds is gr.ANC_KINDS else None)
-        yield _case("rand", g, ALL_LAYERS, random_queries(rng, g["V"], 40), n <= 6, rng.randrange(1 << 30))
+        yield _case("rand", g, ALL_LAYERS, random_queries(rng, g["V"], 40), n <= 6, seed(),
+                    rep=seed() if i % 4 == 1 else None, custom=(i % 10 == 2))
     # --- malformed: cyclic directed layer must raise
     for n in (2, 3):
         for g in gr.enum_class(n, gr.ADMG_KINDS, acyclic=False):
@@ -194,18 +215,17 @@ def run_impl(case):
     import pywhy_graphs.networkx as pywhy_nx
     if _HANGS >= HANG_LIMIT and not case.get("_noskip"):
         return {"skipped": True}
-    M, lab, inv = gr.to_mixed(case["g"], case, layers=tuple(case["layers"]))
-    before = gr.snapshot(M)
+    M = lab = inv = kw = names = None
     res, sym = [], []
     signal.signal(signal.SIGVTALRM, _on_vtalrm)
 
-    def call(A, B, Z):
+    def call(G, A, B, Z):
         global _HANGS
         a, b, z = {lab(v) for v in A}, {lab(v) for v in B}, {lab(v) for v in Z}
         try:
             signal.setitimer(signal.ITIMER_VIRTUAL, HANG_CPU_S)
             try:
-                r = pywhy_nx.m_separated(M, a, b, z)
+                r = pywhy_nx.m_separated(G, a, b, z, **kw)
             finally:
                 signal.setitimer(signal.ITIMER_VIRTUAL, 0)
             return int(bool(r))
@@ -214,12 +234,59 @@ def run_impl(case):
             return 3
         except Exception as e:  # noqa
             return 2 if isinstance(e, nx.NetworkXError) else "exc:" + type(e).__name__
-    for X, Y, Z in case["qs"]:
-        res.append(call(X, Y, Z))
-        sym.append(call(Y, X, Z))
+
+    if case.get("rep") is not None:
+        # REPEAT protocol: the same object first represents a neighbour graph g0 (same node and edge counts where possible),
+        # answers the same queries (discarded), is edited in place into g, and only then judged
+        import random as _r
+        r0 = _r.Random(case["rep"])
+        g0 = gr.perturb(case["g"], r0) or gr.perturb(case["g"], r0, keep_counts=False)
+        if g0 is not None:
+            M, lab, inv, kw, names = build(case, g0)
+            for X, Y, Z in case["qs"]:
+                call(M, X, Y, Z)
+            gr.morph(M, g0, case["g"], lab, names)
+    if M is None:
+        M, lab, inv, kw, names = build(case, case["g"])
+    before = gr.snapshot(M)
+    symh = case.get("symh")
+    for i, (X, Y, Z) in enumerate(case["qs"]):
+        res.append(call(M, X, Y, Z))
+        sym.append(call(M, Y, X, Z) if symh is None or i % 2 == symh else None)
         if _HANGS >= HANG_LIMIT and not case.get("_noskip"):
             break
-    return {"res": res, "sym": sym, "mutated": gr.snapshot(M) != before}
+    out = {"res": res, "sym": sym, "mutated": gr.snapshot(M) != before}
+    if case.get("rep") is not None:
+        # the edited object must represent g (guards the harness' own morph step)
+        out["morph_ok"] = _same_graph(M, inv, names, case["g"])
+    return out
+
+
+def build(case, g):
+    """MixedEdgeGraph for g with the case's layers (under custom names if asked) -> (M, lab, inv, name kwargs, k->layer name)"""
+    import networkx as nx
+    import pywhy_graphs.networkx as pywhy_nx
+    key = {"directed": "D", "bidirected": "B", "undirected": "U"}
+    if not case.get("custom"):
+        M, lab, inv = gr.to_mixed(g, case, layers=tuple(case["layers"]))
+        return M, lab, inv, {}, {key[n]: n for n in case["layers"]}
+    mk = {"directed": nx.DiGraph, "bidirected": nx.Graph, "undirected": nx.Graph}
+    M = pywhy_nx.MixedEdgeGraph(graphs=[mk[n]() for n in case["layers"]], edge_types=[CUSTOM_NAMES[n] for n in case["layers"]])
+    names = {key[n]: CUSTOM_NAMES[n] for n in case["layers"]}
+    lab, inv = gr._fill(M, g, case, names)
+    kw = {n + "_edge_name": CUSTOM_NAMES[n] for n in ALL_LAYERS}
+    return M, lab, inv, kw, names
+
+
+def _same_graph(M, inv, names, g):
+    for k, name in names.items():
+        es = [(inv(a), inv(b)) for a, b in M.get_graphs(name).edges()]
+        if k in "BU":
+            if sorted(tuple(sorted(e)) for e in es) != sorted(tuple(sorted(e)) for e in g[k]):
+                return False
+        elif sorted(es) != sorted(tuple(e) for e in g[k]):
+            return False
+    return sorted(inv(v) for v in M.nodes) == sorted(g["V"])
 
 
 def compare(case, impl, model):
@@ -235,11 +302,13 @@ def compare(case, impl, model):
         return "domain-flags"
     if any(q != 1 for q in model["qok"]):
         return "query-domain"
+    if impl.get("morph_ok") is False:
+        return "harness-morph"
     if impl["mutated"]:
         return "argument-mutated"
     if impl["res"] != model["res"]:
-        return "boolean"
-    if impl["sym"] != impl["res"]:
+        return "boolean-after-edit" if case.get("rep") is not None else "boolean"
+    if any(b is not None and a != b for a, b in zip(impl["res"], impl["sym"])):
         return "symmetry"
     if model["oracle"] is not None and 2 not in model["res"] and model["oracle"] != model["res"]:
         return "model-vs-oracle"
@@ -251,7 +320,7 @@ def nontrivial(case, model):
 
 
 def key(case):
-    return (gr.canon(case["g"]), tuple(case["layers"]))
+    return (gr.canon(case["g"]), tuple(case["layers"]), case.get("rep") is not None, bool(case.get("custom")))
 
 
 def shrink(case):
